@@ -706,6 +706,92 @@ def outer_libs(ctx, da, scheds, srcname="c02_libs.scm", tag="libs", more_env=Non
     return n
 
 
+def outer_errors(ctx, da, ntests, scheds):
+    """dense schedules over the PRIMITIVE-ERROR paths of the VM (every `sexp_raise` of vm.c: car / cdr / vector / string /
+    bytevector range and type errors, non-procedure application, wrong arity, apply of an improper list) inside guard,
+    with-exception-handler + call/cc, dynamic-wind, parameterize, with closure calls at varying depths in between
+    (harness/c02_errors.scm: 16 error kinds x 7 handler contexts x 3 iterations).  The schedule starts at the program's marker
+    allocation (after reading / compiling); scheds = [(schedule, phase offset, audit)]; ntests = size of the random subset of
+    the 112 test procedures (None: all)."""
+    try:
+        supported = "CHIBI_VERIF_GC_START" in open(os.path.join(da, "gc.c")).read()
+    except OSError:
+        supported = False
+    if not supported:
+        ctx.note("dense schedules over primitive-error paths skipped: the tree has no CHIBI_VERIF_GC_START hook")
+        return 0
+    emb = B.cc_embed(da, HARNESS, os.path.join(da, "embed_c02"))
+    work = os.path.join(B.SCRATCH, "tmp_c02_work")
+    os.makedirs(work, exist_ok=True)
+    text = open(os.path.join(HERE, "..", "harness", "c02_errors.scm")).read()
+    names = re.findall(r"^\(define \((t-[^ )]+)\)", text, re.M)
+    pick = names if (ntests is None or ntests >= len(names)) else sorted(ctx.rng.sample(names, ntests))
+    text = re.sub(r"^\(define tests .*$", lambda m: "(define tests (list %s))" % " ".join("(cons '%s %s)" % (n, n) for n in pick), text, flags=re.M)
+    src = os.path.join(work, "errors-%s.scm" % hashlib.sha1(text.encode()).hexdigest()[:10])
+    open(src, "w").write(text)
+    fe, tr = os.path.join(work, "errors-empty.scm"), os.path.join(work, "errors.trace")
+    open(fe, "w").write("\n")
+    base_env = {"C02_NO_BOOT_GC": "1", "ASAN_OPTIONS": "detect_leaks=0:detect_odr_violation=0:exitcode=97"}
+
+    def go(path, extra, timeout=1500):
+        try:
+            r = subprocess.run([emb, path, "/dev/null"], capture_output=True, text=True, env=B.chibi_env(da, dict(base_env, **extra)), timeout=timeout)
+            return r.returncode, r.stdout, r.stderr
+        except subprocess.TimeoutExpired:
+            return "TIMEOUT", "", ""
+
+    def count(path):
+        go(path, {"CHIBI_VERIF_TRACE": tr})
+        n, marks = 0, []
+        for l in open(tr):
+            if l.startswith("A "):
+                n += 1
+                if 77777 < int(l.split()[1]) < 77900:
+                    marks.append(n)
+        os.unlink(tr)
+        return n, marks
+    n0, _ = count(fe)
+    n1, marks = count(src)
+    rc0, out0, err0 = go(src, {})
+    pre = "C02_NO_BOOT_GC=1 LD_LIBRARY_PATH=%s CHIBI_MODULE_PATH=%s/lib CHIBI_IGNORE_SYSTEM_PATH=1 ASAN_OPTIONS=detect_leaks=0:detect_odr_violation=0 %s %s /dev/null" % (da, da, emb, src)
+    if rc0 != 0 or len(marks) != 2 or out0.count("\n") != len(pick):
+        top0 = asan_top(err0)
+        if top0:
+            ctx.violation("schedule:errors:unforced:asan:%s:%s" % (top0[0], "/".join(top0[1][:2])), input="harness/c02_errors.scm (%d tests) without forced collections" % len(pick),
+                          expected="runs to the end", observed="AddressSanitizer %s in %s" % (top0[0], " <- ".join(top0[1])), replay=pre)
+        else:
+            ctx.broken("outer:baseline", "harness/c02_errors.scm fails without forced collections (rc=%s, markers=%s, %d lines): %s" % (rc0, marks, out0.count("\n"), err0[-300:]))
+        return 0
+    start = marks[0] - n0
+    n = 0
+    for s, phase, audit in scheds:
+        extra = {"CHIBI_VERIF_GC": s, "CHIBI_VERIF_GC_START": str(start + phase)}
+        if audit:
+            extra["CHIBI_VERIF_AUDIT"] = "1"
+        rc, out, err = go(src, extra)
+        if rc == "TIMEOUT":
+            ctx.note("primitive-error run under %s timed out (inconclusive)" % s)
+            continue
+        n += 1
+        ctx.count(1, key=("errors", tuple(pick), s, phase), nontrivial=True)
+        replay = "%sCHIBI_VERIF_GC=%s CHIBI_VERIF_GC_START=%d %s" % ("CHIBI_VERIF_AUDIT=1 " if audit else "", s, start + phase, pre)
+        what = "harness/c02_errors.scm (tests %s) under CHIBI_VERIF_GC=%s from allocation %d" % (" ".join(pick) if len(pick) <= 20 else "all %d" % len(pick), s, start + phase)
+        ma = re.search(r"VERIF-AUDIT FAIL gc=\d+: ([^\n]*)", err)
+        if ma:
+            ctx.violation("audit:" + ma.group(1).replace(" ", "-")[:60], input=what, expected="closed, tiled heap with clear marks after every sweep", observed=ma.group(0), replay=replay)
+        if rc != rc0 or out != out0:
+            top = asan_top(err)
+            l0, l1 = out0.split("\n"), out.split("\n")
+            i = next((i for i, (x, y) in enumerate(zip(l0, l1)) if x != y), min(len(l0), len(l1)))
+            ctx.violation("schedule:errors:%s" % ("asan:" + top[0] + ":" + "/".join(top[1][:2]) if top else ("exit-status" if rc != rc0 else "output-differs")),
+                          input=what, expected="same output and exit status as the unforced run (first lines: %r)" % out0[:120],
+                          observed=("AddressSanitizer %s in %s; output stops after %d of %d lines (%r)" % (top[0], " <- ".join(top[1][:6]), len(l1) - 1, len(l0) - 1, l1[-2:-1]) if top
+                                    else "rc=%s; first differing line %d: %r vs %r" % (rc, i, l1[i:i + 1], l0[i:i + 1])),
+                          replay=replay)
+    ctx.sample(dict(kind="outer-errors", tests=len(pick), allocations_in_dense_region=marks[1] - marks[0], start_allocation=start, schedules=[sc[0] for sc in scheds]))
+    return n
+
+
 def run(ctx):
     ctx.cov["rule"] = ("inner: one case = one collection (real sexp_mark + sexp_sweep) inside a generated workload (random mix of 20 snippets: deep "
                        "recursion, closures, vectors with trailing duplicates/immediates, call/cc + dynamic-wind, hash tables, bignums, ports, records "
@@ -741,10 +827,16 @@ def run(ctx):
         for a in vt["assumptions"]:
             ctx.assume("vm.c translator: " + a)
         ctx.trust("gen/c02_vmtop.py: functions outside the core library called from the opcode switch are taken as non-allocating: " + ", ".join(vt["external"]))
+        ctx.cov["vm_segments_with_stack_stores"] = sum(1 for sg in vt["segments"] if sg.get("stores"))
         for sg in badsegs:
-            ctx.broken("vmtop:allocating-call-with-unpublished-stack-top:" + "/".join(sg["names"]),
-                       "opcode %s of vm.c reaches %s with the local stack top not known to be <= sexp_context_top(ctx) (state %s): a collection there does not scan the newest stack slots" % (
-                           "/".join(sg["names"]), ", ".join(sorted(set(b[0] for b in sg["bad"]))), sg["bad"][0][1]))
+            kinds = sorted(set(b[1] for b in sg["bad"]))
+            cls = "lost-root" if ("lost" in kinds or "lost-store" in kinds) else ("stale-root" if "stale" in kinds else ("exit" if "exit" in kinds else "other"))
+            ctx.broken("vmtop:%s:%s" % (cls, "/".join(sg["names"])),
+                       "opcode %s of vm.c: %s" % ("/".join(sg["names"]), "; ".join(sorted(set(c02_vmtop.why_text(b) for b in sg["bad"])))[:900]))
+        ctx.assume("vm.c translator / checker: at the start of an opcode every slot below the local top and below the published top has been written "
+                   "(re-established by every accepted opcode at every exit: theorem vm_stack_scan_exact); `top = <expression>` yields a top at or below the written end; "
+                   "a callee returns with the published top it was called with, or the opcode reloads top from it; slots written or popped earlier in the "
+                   "same opcode keep valid values across a collection that did not scan them (value liveness is outside the abstraction)")
     except Exception as e:
         ctx.broken("gen:C02_VmTop", "vm.c opcode-switch translator failed closed: %s" % e)
         return
@@ -798,6 +890,12 @@ def run(ctx):
     nt = outer_libs(ctx, da, tscheds, srcname="c02_threads.scm", tag="threads", more_env={"CHIBI_VERIF_SCHED_CLOCK": "1000"})
     t6 = time.time()
     ctx.note("green-thread programs under dense forced collections: %d runs %.0fs" % (nt, t6 - t5))
+    if ctx.thorough:
+        ne = outer_errors(ctx, da, None, [("every:1", 0, True), ("every:2", 0, False), ("every:2", 1, False), ("every:3", 1, True), ("seed:%d:3" % rs(), 0, False)])
+    else:
+        ne = outer_errors(ctx, da, 8, [("every:1", 0, False), ("every:2", 1, False)])
+    t7 = time.time()
+    ctx.note("primitive-error paths under dense forced collections: %d runs %.0fs" % (ne, t7 - t6))
     ctx.note("timing: inner %d collections %.0fs; asan build %.0fs; outer %d runs %.0fs; dense %d runs %.0fs; library dense %d runs %.0fs" % (
         nc, t1 - t0, t2 - t1, nr, t3 - t2, nd, t4 - t3, nl, t5 - t4))
     _tiny_heap_probe(ctx, da)
